@@ -242,8 +242,10 @@ impl Debugger {
                 let brkpt =
                     Breakpoint::new_temporary(debug_info.pathname(), ret_addr, location.pid);
                 self.breakpoints.add_and_enable(brkpt)?;
-                self.continue_execution()?;
+                let result = self.continue_execution();
+                // the temporary breakpoint must not outlive the step, even a failed one
                 self.remove_breakpoint(Address::Relocated(ret_addr))?;
+                result?;
             }
         }
 
@@ -349,7 +351,7 @@ impl Debugger {
             }
         }
 
-        step_over_breakpoints
+        let mut installed = step_over_breakpoints
             .into_iter()
             .try_for_each(|load_addr| {
                 self.breakpoints
@@ -359,25 +361,42 @@ impl Debugger {
                         current_location.pid,
                     ))
                     .map(|_| ())
-            })?;
+            });
 
-        let return_addr = self.debugee.return_addr(current_location.pid)?;
+        let mut return_addr = None;
+        if installed.is_ok() {
+            match self.debugee.return_addr(current_location.pid) {
+                Ok(addr) => return_addr = addr,
+                Err(e) => installed = Err(e),
+            }
+        }
         if let Some(ret_addr) = return_addr
             && self.breakpoints.get_enabled(ret_addr).is_none()
         {
-            self.breakpoints.add_and_enable(Breakpoint::new_temporary(
-                dwarf.pathname(),
-                ret_addr,
-                current_location.pid,
-            ))?;
             to_delete.push(ret_addr);
+            installed = self
+                .breakpoints
+                .add_and_enable(Breakpoint::new_temporary(
+                    dwarf.pathname(),
+                    ret_addr,
+                    current_location.pid,
+                ))
+                .map(|_| ());
         }
 
-        let stop_reason = self.continue_execution()?;
+        let stop_reason = match installed {
+            Ok(()) => self.continue_execution(),
+            Err(e) => Err(e),
+        };
 
-        to_delete
-            .into_iter()
-            .try_for_each(|addr| self.remove_breakpoint(Address::Relocated(addr)).map(|_| ()))?;
+        // temporary breakpoints must not outlive the step, even a failed one:
+        // remove all of them before looking at the outcome
+        let removed = to_delete.into_iter().fold(Ok(()), |acc: Result<(), Error>, addr| {
+            let res = self.remove_breakpoint(Address::Relocated(addr)).map(|_| ());
+            acc.and(res)
+        });
+        let stop_reason = stop_reason?;
+        removed?;
 
         // hooks already called at [`Self::continue_execution`], so use `quite` opt
         match stop_reason {
